@@ -234,8 +234,11 @@ pub fn run(tier: &str, only: Option<&Value>) -> i32 {
             if ex.capped {
                 rep.caps.push(format!("input set {i}: execution cap {cap} hit"));
             }
-            for e in &ex.errors {
-                rep.machinery(format!("input set {i}: {e}"));
+            // The harness makes every scheduling choice itself and replays it verbatim: if the
+            // same input under the same schedule behaves differently on a second execution, the
+            // build depends on something else (hash seeds) — which is what C09 forbids.
+            if !ex.errors.is_empty() {
+                rep.violation(Violation { key: "different_behaviour_under_identical_schedule".into(), features: c.features.clone(), input: c.input.clone(), ps, detail: ex.errors.iter().take(5).cloned().collect::<Vec<_>>().join("\n"), locator: json!({"space": "c09_corpus", "index": i, "ps": ps}) });
             }
             if ex.outcomes.len() > 1 {
                 let mut detail = format!("{} different outcomes for one input set:\n", ex.outcomes.len());
